@@ -185,13 +185,7 @@ Proof.
   apply node_fresh; auto. apply not_exists_loc; auto.
 Qed.
 
-(* ---------- relocate ---------- *)
-Fixpoint relocate_loc (from to : loc) (l : list loc) : list loc :=
-  match l with
-  | [] => []
-  | r :: l' => if loc_eqb r from then to :: l' else r :: relocate_loc from to l'
-  end.
-
+(* ---------- relocate ([relocate_loc] is in the model) ---------- *)
 Lemma locs_relocate : forall f t rs, locs (relocate f t rs) = relocate_loc f t (locs rs).
 Proof.
   induction rs as [|r rs IH]; cbn [relocate locs map relocate_loc]; auto.
@@ -270,4 +264,48 @@ Proof.
     + apply NoDup_map_filter; auto.
   - unfold after. discriminate.
   - intros k Hk. apply Nat.eqb_eq. apply H3; auto.
+Qed.
+
+(* ---------- a completable set has at most copy_count members ---------- *)
+Lemma sum_one_except : forall {A} (ks : list A) (f : A -> nat) D, NoDup ks -> In D ks ->
+  (forall d, In d ks -> d <> D -> f d = 1) -> list_sum (map f ks) + 1 = f D + length ks.
+Proof.
+  induction ks as [|k ks IH]; intros f D Hnd HD H1; [destruct HD|].
+  inversion Hnd as [|? ? Hn Hd]; subst. cbn [map length].
+  change (list_sum (f k :: map f ks)) with (f k + list_sum (map f ks)).
+  destruct HD as [->|HD].
+  - rewrite (list_sum_const ks f 1); [lia|].
+    intros d Hd'. apply H1; [right; auto|]. intro; subst; auto.
+  - assert (f k = 1) as Hk by (apply H1; [left; auto|intro; subst; auto]).
+    assert (list_sum (map f ks) + 1 = f D + length ks) as Hi.
+    { apply IH; auto. intros d Hd' Hne. apply H1; auto. right; auto. }
+    lia.
+Qed.
+
+Lemma SubP_length : forall p l, SubP p l -> length l <= copy_count p.
+Proof.
+  intros p l [Hnd [Hdcs [->|[D [HD [Ho [Hr [R [HR1 [HR2 HR3]]]]]]]]]]; [cbn [length]; lia|].
+  pose proof (len_sum_nodup N.eq_dec (map l_dc l)) as Hs. rewrite map_length in Hs.
+  change (nodup N.eq_dec (map l_dc l)) with (dcs l) in Hs.
+  change (count_occ N.eq_dec (map l_dc l)) with (cnt_dc l) in Hs.
+  pose proof (sum_one_except (dcs l) (cnt_dc l) D (NoDup_nodup _ _) HD Ho) as H1.
+  set (inD := in_dc D l) in *.
+  pose proof (len_sum_nodup rack_dec (map rack_of inD)) as Hs2. rewrite map_length in Hs2.
+  change (nodup rack_dec (map rack_of inD)) with (racks inD) in Hs2.
+  change (count_occ rack_dec (map rack_of inD)) with (cnt_rack inD) in Hs2.
+  pose proof (sum_one_except (racks inD) (cnt_rack inD) R (NoDup_nodup _ _) HR1 HR2) as H2.
+  assert (length inD = cnt_dc l D) as HlD by (unfold inD; apply length_in_dc).
+  unfold copy_count. lia.
+Qed.
+
+(* satisfyReplicaPlacement never admits a copy for a volume whose replicas already form a
+   valid layout *)
+Lemma satisfy_not_valid : forall p l c, ids_ok (c :: l) -> satisfy p l c = true ->
+  valid_placement p l = false.
+Proof.
+  intros p l c Hid Hs. destruct (valid_placement p l) eqn:Ev; auto. exfalso.
+  unfold valid_placement in Ev. apply andb_true_iff in Ev. destruct Ev as [Hsub Hlen].
+  apply sub_placement_iff in Hsub. apply Nat.eqb_eq in Hlen.
+  pose proof (SubP_length p (c :: l) (satisfy_SubP p l c Hsub Hid Hs)) as Hle.
+  cbn [length] in Hle. lia.
 Qed.
